@@ -29,6 +29,8 @@ reported once.
   fsc q                                                    → ok <n> <type>:<blocks>:<name>,… | err:<class>   (free + cat)
   fsc variant ifaceguard <0|1>                             → ok   the tree has `proposed_fixes/cpm-put-interface-flags.diff`
                                                              (`put` refuses an image that sets F5–F8); default 0 = as written
+  fsc variant absidx <0|1>                                 → ok   the tree has `proposed_fixes/cpm-get-partial-extent.diff`
+                                                             (`get`: block count restarts at every physical extent); default 0
 
 `<real>` is `ok` or `err:<class>` with the classes of `Err.token`.  Names, types, passwords, times are hex.
 -/
@@ -41,6 +43,8 @@ structure St where
   ready : Bool := false
   /-- code variant: `write_file` refuses file images that set an interface attribute -/
   guard : Bool := false
+  /-- code variant: `read_file` restarts the block count at every physical extent -/
+  absIdx : Bool := false
   deriving Inhabited
 
 def eqBytes : List Nat → List Nat → Bool
@@ -81,16 +85,16 @@ def resTok {α : Type} (r : R α) : String :=
   | .error e => s!"err:{e.token}"
 
 /-- compare result class and image; on disagreement adopt the mirror -/
-def verdict (guard : Bool) (mirror : Raw) (real : String) (model : String) (r' : Raw) : St × String :=
-  if model ≠ real then ({ raw := mirror, ready := true, guard := guard }, s!"bad result model={model} real={real}")
+def verdict (st0 : St) (mirror : Raw) (real : String) (model : String) (r' : Raw) : St × String :=
+  if model ≠ real then ({ st0 with raw := mirror, ready := true }, s!"bad result model={model} real={real}")
   else match firstDiff r' mirror with
     | some i =>
       let a := r'.units[i]?.getD []
       let b := mirror.units[i]?.getD []
       let o := byteDiff a b 0
-      ({ raw := mirror, ready := true, guard := guard }, s!"bad block {i} offset {o} model={a.getD o 256} real={b.getD o 256}")
+      ({ st0 with raw := mirror, ready := true }, s!"bad block {i} offset {o} model={a.getD o 256} real={b.getD o 256}")
     -- equal block for block: keep the mirror (shares its units with family `fs`)
-    | none => ({ raw := mirror, ready := true, guard := guard }, "ok")
+    | none => ({ st0 with raw := mirror, ready := true }, "ok")
 
 def parseChunks (s : String) : Option (List (Nat × Bytes)) :=
   if s == "-" then some [] else
@@ -121,60 +125,64 @@ def handle (d : Dpb) (mirror : Raw) (st : St) (toks : List String) : St × Strin
     match bool01 v with
     | some b => ({ st with guard := b }, "ok")
     | none => (st, "bad-request")
+  | ["variant", "absidx", v] =>
+    match bool01 v with
+    | some b => ({ st with absIdx := b }, "ok")
+    | none => (st, "bad-request")
   | ["format", vn, time, real] =>
     match Hex.ofHex vn, parseTime time with
     | some vn, some time =>
       let (res, r') := format d (blank d mirror) vn time
-      verdict st.guard mirror real (resTok res) r'
+      verdict st mirror real (resTok res) r'
     | _, _ => (st, "bad-request")
   | ["init", vn, time] =>
     match Hex.ofHex vn, parseTime time with
     | some vn, some time =>
       let (res, r') := format d (blank d mirror) vn time
       match res with
-      | .ok _ => ({ raw := r', ready := true, guard := st.guard }, "ok")
+      | .ok _ => ({ st with raw := r', ready := true }, "ok")
       | .error e => (st, s!"bad init err:{e.token}")
     | _, _ => (st, "bad-request")
   | ["put", name, fstype, access, eof, now, real, cs] =>
     match Hex.ofHex name, Hex.ofHex fstype, Hex.ofHex access, eof.toNat?, Hex.ofHex now, parseChunks cs with
     | some name, some fstype, some access, some eof, some now, some cs =>
       let (res, r') := put d st.raw { chunkLen := blockSize d, fullPath := name, fsType := fstype, access := access, eof := eof, chunks := cs, guardIface := st.guard } now
-      verdict st.guard mirror real (resTok res) r'
+      verdict st mirror real (resTok res) r'
     | _, _, _, _, _, _ => (st, "bad-request")
   | ["delete", name, real] =>
     match Hex.ofHex name with
-    | some name => let (res, r') := delete d st.raw name; verdict st.guard mirror real (resTok res) r'
+    | some name => let (res, r') := delete d st.raw name; verdict st mirror real (resTok res) r'
     | none => (st, "bad-request")
   | ["rename", old, new, real] =>
     match Hex.ofHex old, Hex.ofHex new with
-    | some old, some new => let (res, r') := rename d st.raw old new; verdict st.guard mirror real (resTok res) r'
+    | some old, some new => let (res, r') := rename d st.raw old new; verdict st mirror real (resTok res) r'
     | _, _ => (st, "bad-request")
   | ["lock", name, real] =>
     match Hex.ofHex name with
-    | some name => let (res, r') := lock d st.raw name; verdict st.guard mirror real (resTok res) r'
+    | some name => let (res, r') := lock d st.raw name; verdict st mirror real (resTok res) r'
     | none => (st, "bad-request")
   | ["unlock", name, real] =>
     match Hex.ofHex name with
-    | some name => let (res, r') := unlock d st.raw name; verdict st.guard mirror real (resTok res) r'
+    | some name => let (res, r') := unlock d st.raw name; verdict st mirror real (resTok res) r'
     | none => (st, "bad-request")
   | ["retype", name, ty, real] =>
     match Hex.ofHex name, Hex.ofHex ty with
-    | some name, some ty => let (res, r') := retype d st.raw name ty; verdict st.guard mirror real (resTok res) r'
+    | some name, some ty => let (res, r') := retype d st.raw name ty; verdict st mirror real (resTok res) r'
     | _, _ => (st, "bad-request")
   | ["protect", name, pw, rd, wr, del, real] =>
     match Hex.ofHex name, Hex.ofHex pw, bool01 rd, bool01 wr, bool01 del with
     | some name, some pw, some rd, some wr, some del =>
       let (res, r') := protect d st.raw name pw rd wr del
-      verdict st.guard mirror real (resTok res) r'
+      verdict st mirror real (resTok res) r'
     | _, _, _, _, _ => (st, "bad-request")
   | ["unprotect", name, real] =>
     match Hex.ofHex name with
-    | some name => let (res, r') := unprotect d st.raw name; verdict st.guard mirror real (resTok res) r'
+    | some name => let (res, r') := unprotect d st.raw name; verdict st mirror real (resTok res) r'
     | none => (st, "bad-request")
   | ["get", name] =>
     match Hex.ofHex name with
     | some name =>
-      match get d st.raw name with
+      match get d st.raw name st.absIdx with
       | .ok g => (st, s!"ok {g.eof} {Hex.toHex g.access} {Hex.toHex g.created} {Hex.toHex g.modified} {g.chunks.length} {adler g.chunks}")
       | .error e => (st, s!"err:{e.token}")
     | none => (st, "bad-request")
